@@ -602,6 +602,20 @@ func (e *Explorer) runPath(ctx *smt.Ctx, sess *smt.Session, pfx []Decision) {
 					}()
 					in.recordPanic(msg)
 				}()
+			case blockedSignal:
+				status = "panic"
+				func() {
+					defer func() {
+						if rr := recover(); rr != nil {
+							status = "unsupported"
+							unsup = fmt.Sprint("while recording deadlock: ", rr)
+						}
+					}()
+					in.recordPanic("deadlock: the calling goroutine blocks forever (" + r.what + ")")
+				}()
+			case killSignal:
+				status = "unsupported"
+				unsup = "kill armed outside vhdb.RunUntilKill"
 			case internalAbort:
 				status = "unsupported"
 				unsup = "engine: " + r.msg
